@@ -28,7 +28,7 @@ const OPTS: OpOptions = OpOptions {
 
 fn strategy(t: Tier) -> BoxedStrategy<Case> {
     let max_len = t.pick(24, 60);
-    arb_n(0, 12)
+    arb_n(0, 13)
         .prop_flat_map(move |n| {
             let len = if n >= 10 { max_len / 3 } else { max_len };
             arb_history(n, Fam::Dyn, OPTS, 1, len).prop_map(|mut h| {
@@ -97,7 +97,7 @@ fn run_conv(c: &ConvCase) -> Verdict {
     };
     let mut labels = vec![format!("n:{}", n)];
     // Lut -> LutN fails exactly when the variable counts differ
-    for big_n in 0..=12usize {
+    for big_n in 0..=13usize {
         let r = lib!("TryFrom<Lut> for LutN", l.convert(big_n));
         match r {
             Ok(x) => {
@@ -201,7 +201,7 @@ pub struct ListCase {
 }
 
 fn strategy_list(_t: Tier) -> BoxedStrategy<ListCase> {
-    arb_n(0, 12)
+    arb_n(0, 13)
         .prop_flat_map(|n| {
             let t = crate::model::words_for(n);
             // total size log-uniform between 1 and 2^17.6 words
@@ -246,6 +246,46 @@ fn run_list(c: &ListCase) -> Verdict {
     pass(c.len >= 2 && !c.base[0].is_const(), vec![format!("n:{}", c.n), format!("words:{}", match words { 0..=999 => "<1e3", 1000..=65535 => "1e3..2^16", _ => ">=2^16" })])
 }
 
+// ---------------------------------------------------------------------------------------------
+// canonization at sizes the histories cannot afford: same table AND same certificate
+
+#[derive(Clone, Debug, Hash, Serialize, Deserialize)]
+pub struct CanonCase {
+    /// true: p_canonization, false: n_canonization
+    pub perm: bool,
+    pub f: Tt,
+}
+
+fn strategy_canon(_t: Tier) -> BoxedStrategy<CanonCase> {
+    // P walks n! permutations: n = 8, 9 and (one case in six) 10; N walks 2^(n+1) masks: n = 8..=12
+    prop_oneof![
+        3 => prop_oneof![3 => Just(8usize), 2 => Just(9usize), 1 => Just(10usize)].prop_flat_map(|n| crate::props::c04::arb_canon_tt(n).prop_map(|f| CanonCase { perm: true, f })),
+        2 => (8usize..=12).prop_flat_map(|n| crate::props::c04::arb_canon_tt(n).prop_map(|f| CanonCase { perm: false, f })),
+    ]
+    .boxed()
+}
+
+fn run_canon(c: &CanonCase) -> Verdict {
+    let n = c.f.n;
+    let (l, s) = match (load(Fam::Dyn, &c.f), load(Fam::Static, &c.f)) {
+        (Ok(a), Ok(b)) => (a, b),
+        _ => return pass(false, vec!["skipped:unloadable".into()]),
+    };
+    let what = if c.perm { "p_canonization" } else { "n_canonization" };
+    let ((tl, pl, ml), (ts, ps, ms)) = if c.perm {
+        let a = lib!("Lut::p_canonization", l.p_canon());
+        let b = lib!("LutN::p_canonization", s.p_canon());
+        ((a.0, a.1, 0u32), (b.0, b.1, 0u32))
+    } else {
+        let a = lib!("Lut::n_canonization", l.n_canon());
+        let b = lib!("LutN::n_canonization", s.n_canon());
+        ((a.0, vec![], a.1), (b.0, vec![], b.1))
+    };
+    ensure!(tl.blocks() == ts.blocks(), "canon:table", "{} of {}: Lut gives the table {:x?}, Lut{} gives {:x?}", what, c.f.short(), tl.blocks(), n, ts.blocks());
+    ensure!(pl == ps && ml == ms, "canon:certificate", "{} of {}: Lut returns the certificate (perm {:?}, mask {:#x}) but Lut{} returns (perm {:?}, mask {:#x})", what, c.f.short(), pl, ml, n, ps, ms);
+    pass(to_model(tl.as_ref()) != c.f, vec![format!("n:{}", n), format!("group:{}", if c.perm { "p" } else { "n" })])
+}
+
 pub fn def() -> PropDef {
     PropDef {
         id: "C10",
@@ -257,6 +297,7 @@ pub fn def() -> PropDef {
         subs: vec![
             Box::new(Sub { name: "diff", rule: "Lut vs LutN on the same history", strategy, cases: (60_000, 1_000_000), exhaustive: None, exhaustive_note: "", run }),
             Box::new(Sub { name: "conv", rule: "Lut <-> LutN conversions", strategy: strategy_conv, cases: (60_000, 600_000), exhaustive: None, exhaustive_note: "", run: run_conv }),
+            Box::new(Sub { name: "canon-large", rule: "p_canonization for N in {8, 9, 10} and n_canonization for N in 8..=12 on generated tables (incl. symmetric, partially symmetric, weighted-vote classes): Lut and LutN must return the same table and the same certificate (what the representative should be is C04's statement)", strategy: strategy_canon, cases: (60, 1500), exhaustive: None, exhaustive_note: "", run: run_canon }),
             Box::new(Sub { name: "bddlist", rule: "long lists", strategy: strategy_list, cases: (2_000, 40_000), exhaustive: None, exhaustive_note: "", run: run_list }),
             Box::new(Sub {
                 name: "int",
